@@ -368,4 +368,357 @@ theorem value_rt (e : BEnv) (Γ : Ctx) (fac : Factory) (n : Nat) (ih : IH e Γ f
     | derived q y t => simp [itemOKj] at hitem
     | attrs a => simp [itemOKj] at hitem
 
+/-! ### the two loops -/
+
+def xOf (fs : List (Str × Val)) (var : XmlVar) : Val := (kvGet fs var.name).getD .none
+
+def jOf (fac : Factory) (recE : Val → Except Err J) (fs : List (Str × Val)) (var : XmlVar) : J :=
+  match encVarWith fac recE var (xOf fs var) with
+  | .ok j => j
+  | .error _ => .null
+
+def pairOf (fac : Factory) (recE : Val → Except Err J) (fs : List (Str × Val)) (var : XmlVar) : Str × J :=
+  (keyOf var.toVarCore, jOf fac recE fs var)
+
+def keepP (fac : Factory) (kv : Str × J) : Bool :=
+  match fac with
+  | .dict => true
+  | .filterNone => !kv.2.isNull
+
+theorem fac_apply_eq (fac : Factory) (pairs : List (Str × J)) :
+    fac.apply pairs = .obj (dictOf (pairs.filter (keepP fac))) := by
+  cases fac
+  · have : (fun kv : Str × J => keepP .dict kv) = fun _ => true := rfl
+    have hf : ∀ l : List (Str × J), l.filter (fun _ => true) = l := by
+      intro l; induction l with
+      | nil => rfl
+      | cons a t ih => simp [List.filter, ih]
+    simp only [Factory.apply, this, hf]
+  · have : (fun kv : Str × J => keepP .filterNone kv) = fun kv => !kv.2.isNull := rfl
+    simp only [Factory.apply, this]
+
+theorem getField_of_kvGet (fs : List (Str × Val)) (name : Str) (x : Val) (h : kvGet fs name = some x) :
+    getField fs name = .ok x := by
+  unfold kvGet at h
+  unfold getField
+  cases hf : fs.find? (fun kv => decide (kv.1 = name)) with
+  | none => simp [hf] at h
+  | some kv =>
+    simp only [hf, Option.map_some, Option.some.injEq] at h
+    obtain ⟨k, v⟩ := kv
+    simp only at h
+    subst h
+    rfl
+
+theorem encPairs_eq (fac : Factory) (recE : Val → Except Err J) (fs : List (Str × Val)) :
+    ∀ vars' : List XmlVar,
+      (∀ var ∈ vars', kvGet fs var.name = some (xOf fs var) ∧
+        encVarWith fac recE var (xOf fs var) = .ok (jOf fac recE fs var)) →
+      encPairsWith fac {} recE fs vars' = .ok (vars'.map (pairOf fac recE fs)) := by
+  intro vars'
+  induction vars' with
+  | nil => intro _; rfl
+  | cons var rest ih =>
+    intro h
+    obtain ⟨hget, henc⟩ := h var (List.mem_cons_self ..)
+    have hrest := ih (fun v hv => h v (List.mem_cons_of_mem _ hv))
+    simp only [encPairsWith, getField_of_kvGet fs var.name _ hget, Bool.not_false, Bool.or_true, Bool.true_or,
+      if_true, henc, hrest, List.map_cons, pairOf]
+
+theorem varMatches_names {key : Str} {j : J} {b : XmlVar} (h : varMatches key j b = true) :
+    b.localName = key ∨ wrapperName b.toVarCore = some key := by
+  unfold varMatches at h
+  by_cases h1 : b.localName = key
+  · exact Or.inl h1
+  · by_cases h2 : wrapperName b.toVarCore = some key
+    · exact Or.inr h2
+    · simp [h1, h2] at h
+
+def stepP (fac : Factory) (recE : Val → Except Err J) (fs : List (Str × Val)) (P : Params) (var : XmlVar) : Params :=
+  if keepP fac (pairOf fac recE fs var) && var.init then P.set var.name (xOf fs var) else P
+
+theorem bindPairs_eq (e : BEnv) (recD : Rec) (Γ : Ctx) (cfg : ParserConfig) (m : XmlMeta) (vars : List XmlVar)
+    (fac : Factory) (recE : Val → Except Err J) (fs : List (Str × Val)) :
+    ∀ (vars' : List XmlVar) (P : Params),
+      (∀ var ∈ vars',
+        findVar vars (keyOf var.toVarCore) (jOf fac recE fs var) = some var ∧
+        (∃ j', unwrapValue var (jOf fac recE fs var) = .ok j' ∧
+          bindValueWith e recD Γ cfg m var j' = ND.pure (xOf fs var)) ∧
+        (var.init = true ∨ fixedOK e var (xOf fs var) = true)) →
+      bindPairsWith e recD Γ cfg m vars ((vars'.map (pairOf fac recE fs)).filter (keepP fac)) P
+        = ND.pure (vars'.foldl (stepP fac recE fs) P) := by
+  intro vars'
+  induction vars' with
+  | nil => intro P _; rfl
+  | cons var rest ih =>
+    intro P h
+    obtain ⟨hfind, ⟨j', hun, hbind⟩, hinit⟩ := h var (List.mem_cons_self ..)
+    have hrest := fun P' => ih P' (fun v hv => h v (List.mem_cons_of_mem _ hv))
+    simp only [List.map_cons, List.foldl_cons]
+    by_cases hk : keepP fac (pairOf fac recE fs var) = true
+    · rw [List.filter_cons_of_pos hk]
+      have hfind' : findVar vars (pairOf fac recE fs var).1 (pairOf fac recE fs var).2 = some var := hfind
+      have hun' : unwrapValue var (pairOf fac recE fs var).2 = .ok j' := hun
+      unfold bindPairsWith
+      simp only [hfind', hun', hbind, nd_pure_bind]
+      by_cases hi : var.init = true
+      · simp only [hi, if_true]
+        rw [hrest]
+        simp [stepP, hk, hi]
+      · have hi' : var.init = false := by simpa using hi
+        have hfx : fixedOK e var (xOf fs var) = true := by
+          rcases hinit with h | h
+          · exact absurd h hi
+          · exact h
+        unfold fixedOK at hfx
+        simp only [hi', Bool.false_eq_true, if_false]
+        cases hvf : validateFixed e.py var.toVarCore (xOf fs var) with
+        | error err => simp [hvf] at hfx
+        | ok u =>
+          simp only []
+          rw [hrest]
+          simp [stepP, hi']
+    · have hk' : keepP fac (pairOf fac recE fs var) = false := by simpa using hk
+      rw [List.filter_cons_of_neg (by simp [hk'])]
+      rw [hrest]
+      simp [stepP, hk']
+
+/-! ### the parameters handed to `class_factory` -/
+
+theorem foldl_stepP_get (fac : Factory) (recE : Val → Except Err J) (fs : List (Str × Val)) :
+    ∀ (vars' : List XmlVar) (P : Params) (name : Str), (vars'.map (·.name)).Nodup →
+      (vars'.foldl (stepP fac recE fs) P).get name =
+        match vars'.find? (fun v => decide (v.name = name)) with
+        | some var => if keepP fac (pairOf fac recE fs var) && var.init then some (xOf fs var) else P.get name
+        | none => P.get name := by
+  intro vars'
+  induction vars' with
+  | nil => intro P name _; rfl
+  | cons var rest ih =>
+    intro P name hnd
+    simp only [List.map_cons, List.nodup_cons] at hnd
+    simp only [List.foldl_cons]
+    rw [ih _ name hnd.2]
+    by_cases hname : var.name = name
+    · have hnone : rest.find? (fun v => decide (v.name = name)) = none := by
+        rw [List.find?_eq_none]
+        intro v hv hvn
+        apply hnd.1
+        have : v.name = name := by simpa using hvn
+        rw [hname, ← this]
+        exact List.mem_map_of_mem (f := (·.name)) hv
+      simp only [hnone, List.find?, hname, decide_true]
+      unfold stepP
+      by_cases hc : (keepP fac (pairOf fac recE fs var) && var.init) = true
+      · simp only [hc, if_true]
+        rw [← hname]; exact params_get_set_eq ..
+      · have hc' : (keepP fac (pairOf fac recE fs var) && var.init) = false := by simpa using hc
+        simp only [hc', Bool.false_eq_true, if_false]
+    · have hP : (stepP fac recE fs P var).get name = P.get name := by
+        unfold stepP
+        split
+        · exact params_get_set_ne _ _ _ _ (Ne.symm hname)
+        · rfl
+      simp only [List.find?, hname, decide_false, hP]
+
+theorem map_eq_of_fields {α} (H : FieldInfo → Option (Str × α)) :
+    ∀ (fields : List FieldInfo) (fs : List (Str × α)), fs.map (·.1) = fields.map (·.name) →
+      (∀ f ∈ fields, ∀ x, (f.name, x) ∈ fs → H f = some (f.name, x)) → fields.map H = fs.map some := by
+  intro fields
+  induction fields with
+  | nil =>
+    intro fs h _
+    cases fs with
+    | nil => rfl
+    | cons a t => simp at h
+  | cons f fl ih =>
+    intro fs h hall
+    cases fs with
+    | nil => simp at h
+    | cons kv fsl =>
+      simp only [List.map_cons, List.cons.injEq] at h
+      obtain ⟨k, x⟩ := kv
+      simp only at h
+      have hk : k = f.name := h.1
+      subst hk
+      simp only [List.map_cons]
+      rw [hall f (List.mem_cons_self ..) x (List.mem_cons_self ..)]
+      rw [ih fsl h.2 (fun f' hf' y hy => hall f' (List.mem_cons_of_mem _ hf') y (List.mem_cons_of_mem _ hy))]
+
+theorem classFactory_eq (Γ : Ctx) (c : ClassId) (ci : ClassInfo) (fs : List (Str × Val)) (P : Params)
+    (hfind : Γ.find c = some ci) (hnames : fs.map (·.1) = ci.fields.map (·.name))
+    (hfield : ∀ f ∈ ci.fields, ∀ x, (f.name, x) ∈ fs →
+      (if f.init then P.get f.name else none) = some x ∨
+      ((if f.init then P.get f.name else none) = none ∧ f.default = some x)) :
+    classFactory Γ c P = .ok (.obj c fs) := by
+  unfold classFactory
+  simp only [hfind]
+  rw [map_eq_of_fields _ ci.fields fs hnames]
+  · have h1 : (fs.map some).all Option.isSome = true := by simp
+    have h2 : (fs.map some).filterMap id = fs := by simp
+    simp only [h1, if_true, h2]
+  · intro f hf x hx
+    rcases hfield f hf x hx with h | ⟨h1, h2⟩
+    · simp only [h]
+    · simp only [h1, h2]
+
+theorem keptBy_eq (fac : Factory) (k : Str) (j : J) (x : Val) (h : j.isNull = isNoneV x) :
+    keepP fac (k, j) = keptBy fac x := by
+  cases fac
+  · cases x <;> rfl
+  · cases x <;> simp [keepP, keptBy, h, isNoneV]
+
+theorem keys_kept (Γ : Ctx) (fac : Factory) (recE : Val → Except Err J) (c : ClassId) (fs : List (Str × Val))
+    (m : XmlMeta) (hmeta : metaOf Γ c = .ok m)
+    (h : ∀ var ∈ allVars m, kvGet fs var.name = some (xOf fs var) ∧
+      keepP fac (pairOf fac recE fs var) = keptBy fac (xOf fs var)) :
+    kvKeys (((allVars m).map (pairOf fac recE fs)).filter (keepP fac)) = encKeys Γ fac (.obj c fs) := by
+  simp only [encKeys, hmeta]
+  generalize allVars m = vars at h
+  induction vars with
+  | nil => rfl
+  | cons var rest ih =>
+    obtain ⟨hget, hkeep⟩ := h var (List.mem_cons_self ..)
+    have hrest := ih (fun v hv => h v (List.mem_cons_of_mem _ hv))
+    simp only [List.map_cons, List.filterMap_cons, hget]
+    by_cases hk : keptBy fac (xOf fs var) = true
+    · rw [List.filter_cons_of_pos (by rw [hkeep]; exact hk)]
+      simp only [hk, if_true, kvKeys, List.map_cons]
+      rw [show List.map (fun x => x.fst) (List.filter (keepP fac) (List.map (pairOf fac recE fs) rest))
+        = kvKeys (List.filter (keepP fac) (List.map (pairOf fac recE fs) rest)) from rfl, hrest]
+      rfl
+    · have hk' : keptBy fac (xOf fs var) = false := by simpa using hk
+      rw [List.filter_cons_of_neg (by rw [hkeep, hk']; simp)]
+      simp only [hk', Bool.false_eq_true, if_false]
+      exact hrest
+
+/-! ### the induction -/
+
+theorem eq_of_nodup_map {α β} (g : α → β) : ∀ (l : List α), (l.map g).Nodup → ∀ a ∈ l, ∀ b ∈ l, g a = g b → a = b := by
+  intro l
+  induction l with
+  | nil => intro _ a ha; cases ha
+  | cons x xs ih =>
+    intro hnd a ha b hb hg
+    simp only [List.map_cons, List.nodup_cons] at hnd
+    cases ha with
+    | head =>
+      cases hb with
+      | head => rfl
+      | tail _ hb => exact absurd (hg ▸ List.mem_map_of_mem (f := g) hb) hnd.1
+    | tail _ ha =>
+      cases hb with
+      | head => exact absurd (hg ▸ List.mem_map_of_mem (f := g) ha) hnd.1
+      | tail _ hb => exact ih hnd.2 a ha b hb hg
+
+theorem keptBy_false {fac : Factory} {x : Val} (h : keptBy fac x = false) : x = .none := by
+  cases fac <;> cases x <;> simp [keptBy] at h ⊢
+
+theorem defaultIs_eq {f : FieldInfo} {x : Val} (h : defaultIs f x = true) : f.default = some x := by
+  unfold defaultIs at h
+  split at h
+  · rename_i hd; exact hd
+  · rename_i p q hd
+    have : p = q := by simpa using h
+    rw [hd, this]
+  · cases h
+
+theorem rt_step (e : BEnv) (Γ : Ctx) (fac : Factory) (n : Nat) (ih : IH e Γ fac n) : IH e Γ fac (n + 1) := by
+  intro c v hok
+  obtain ⟨fs, ci, m, hv, hca, hcd, hfind, hmeta, hcl, hnames, hvars, hfields⟩ := valOKj_unpack hok
+  subst hv
+  obtain ⟨cv, cnd, cuniq, cq, cnames, cfnames, cfv⟩ := classOKj_facts hcl
+  have hx : ∀ var ∈ allVars m, kvGet fs var.name = some (xOf fs var) := by
+    intro var hvar
+    obtain ⟨x, hget, _⟩ := hvars var hvar
+    simp [xOf, hget]
+  have hper : ∀ (cfg : ParserConfig), ∀ var ∈ allVars m,
+      encVarWith fac (encModelF Γ fac {} n) var (xOf fs var) = .ok (jOf fac (encModelF Γ fac {} n) fs var) ∧
+      (jOf fac (encModelF Γ fac {} n) fs var).isNull = isNoneV (xOf fs var) ∧
+      varMatches (keyOf var.toVarCore) (jOf fac (encModelF Γ fac {} n) fs var) var = true ∧
+      ∃ j', unwrapValue var (jOf fac (encModelF Γ fac {} n) fs var) = .ok j' ∧
+        bindValueWith e (bindDataclassF e Γ n) Γ cfg m var j' = ND.pure (xOf fs var) := by
+    intro cfg var hvar
+    obtain ⟨x, hget, hval, _⟩ := hvars var hvar
+    have hxo : xOf fs var = x := by simp [xOf, hget]
+    obtain ⟨j, henc, hnull, hm, hrest⟩ := value_rt e Γ fac n ih cfg m var (cv var hvar) x hval
+    have hj : jOf fac (encModelF Γ fac {} n) fs var = j := by simp [jOf, hxo, henc]
+    rw [hj, hxo]
+    exact ⟨henc, hnull, hm, hrest⟩
+  have hkeep : ∀ var ∈ allVars m,
+      keepP fac (pairOf fac (encModelF Γ fac {} n) fs var) = keptBy fac (xOf fs var) := by
+    intro var hvar
+    exact keptBy_eq fac _ _ _ (hper {} var hvar).2.1
+  -- the encoder
+  have hpairs := encPairs_eq fac (encModelF Γ fac {} n) fs (allVars m)
+    (fun var hvar => ⟨hx var hvar, (hper {} var hvar).1⟩)
+  have hkeys := keys_kept Γ fac (encModelF Γ fac {} n) c fs m hmeta (fun var hvar => ⟨hx var hvar, hkeep var hvar⟩)
+  have hnd : ((((allVars m).map (pairOf fac (encModelF Γ fac {} n) fs)).filter (keepP fac)).map (·.1)).Nodup := by
+    have hsub : List.Sublist ((((allVars m).map (pairOf fac (encModelF Γ fac {} n) fs)).filter (keepP fac)).map (·.1))
+        (((allVars m).map (pairOf fac (encModelF Γ fac {} n) fs)).map (·.1)) :=
+      List.Sublist.map _ List.filter_sublist
+    have hmm : ((allVars m).map (pairOf fac (encModelF Γ fac {} n) fs)).map (·.1)
+        = (allVars m).map (fun v => keyOf v.toVarCore) := by
+      simp [List.map_map, pairOf, Function.comp_def]
+    rw [hmm] at hsub
+    exact hsub.nodup cnd
+  refine ⟨((allVars m).map (pairOf fac (encModelF Γ fac {} n) fs)).filter (keepP fac), ?_, hkeys, ?_⟩
+  · simp only [encModelF, asObject, encObjWith, hmeta, hpairs, Except.map, fac_apply_eq, dictOf_nodup _ hnd]
+  · intro cfg
+    have hq : kQName ∉ kvKeys (((allVars m).map (pairOf fac (encModelF Γ fac {} n) fs)).filter (keepP fac)) := by
+      rw [hkeys]
+      intro hmem
+      exact cq (encKeys_sub hmeta _ hmem)
+    have hder := keysEq_false_of_not_mem _ derivedKeys kQName (by simp [derivedKeys]) hq
+    have hloop := bindPairs_eq e (bindDataclassF e Γ n) Γ cfg m (allVars m) fac (encModelF Γ fac {} n) fs
+      (allVars m) [] (by
+        intro var hvar
+        obtain ⟨_, _, hm, hrest⟩ := hper cfg var hvar
+        refine ⟨?_, hrest, ?_⟩
+        · apply find?_unique _ _ var hvar hm
+          intro b hb hbm
+          exact cuniq var hvar b hb (varMatches_names hbm)
+        · obtain ⟨x, hget, _, hfix⟩ := hvars var hvar
+          have hxo : xOf fs var = x := by simp [xOf, hget]
+          rw [hxo]; exact hfix)
+    have hfsnd : (fs.map (·.1)).Nodup := by rw [hnames]; exact cfnames
+    have hcf := classFactory_eq Γ c ci fs
+      ((allVars m).foldl (stepP fac (encModelF Γ fac {} n) fs) []) hfind hnames (by
+        intro f hf x hmem
+        obtain ⟨var, hvar, hvn, hvi⟩ := cfv f hf
+        have hget : kvGet fs f.name = some x := kvGet_of_mem fs f.name x hfsnd hmem
+        have hxo : xOf fs var = x := by simp [xOf, hvn, hget]
+        have hfl := hfields (f.name, x) hmem f hf rfl
+        by_cases hi : f.init = true
+        · simp only [hi, if_true] at hfl ⊢
+          rw [foldl_stepP_get fac _ fs (allVars m) [] f.name cnames]
+          have hfindv : (allVars m).find? (fun v => decide (v.name = f.name)) = some var := by
+            apply find?_unique _ _ var hvar (by simpa using hvn)
+            intro b hb hbn
+            have hbn' : b.name = f.name := by simpa using hbn
+            exact eq_of_nodup_map (·.name) (allVars m) cnames b hb var hvar (hbn'.trans hvn.symm)
+          simp only [hfindv, hkeep var hvar, hxo, hvi, hi, Bool.and_true, params_get_nil]
+          by_cases hk : keptBy fac x = true
+          · left; simp [hk]
+          · have hk' : keptBy fac x = false := by simpa using hk
+            right
+            simp only [hk', Bool.false_or] at hfl
+            have hxn := keptBy_false hk'
+            subst hxn
+            exact ⟨by simp [hk'], defaultIs_eq hfl⟩
+        · have hi' : f.init = false := by simpa using hi
+          simp only [hi', Bool.false_eq_true, if_false] at hfl ⊢
+          right
+          exact ⟨trivial, defaultIs_eq hfl⟩)
+    have hgv : genericView (.obj c fs) = .ok (.obj c fs) := by
+      simp [genericView, hca, hcd]
+    simp only [bindDataclassF, bindDataclassWith, hder, Bool.false_eq_true, if_false, hmeta, hloop, nd_pure_bind,
+      hcf, hgv, nd_ofExcept_ok]
+
+theorem rt_all (e : BEnv) (Γ : Ctx) (fac : Factory) : ∀ n, IH e Γ fac n := by
+  intro n
+  induction n with
+  | zero => intro c v h; simp [valOKj] at h
+  | succ n ih => exact rt_step e Γ fac n ih
+
 end Proofs.C04
